@@ -82,7 +82,34 @@ def has_special(t):
     return False
 
 
+def normalize_type(t):
+    """typing flattens nested Unions and removes duplicated alternatives: the descriptor is put in that form, so that the
+    Python type and the Gallina term describe the same alternatives"""
+    k = t[0]
+    if k == "union":
+        alts = []
+        for a in t[1]:
+            a = normalize_type(a)
+            for b in (a[1] if a[0] == "union" else [a]):
+                if repr(b) not in [repr(x) for x in alts]:
+                    alts.append(b)
+        return alts[0] if len(alts) == 1 else ("union", alts)
+    if k == "coll":
+        return ("coll", t[1], normalize_type(t[2]))
+    if k == "con":
+        return ("con", t[1], normalize_type(t[2]))
+    if k == "tuple":
+        return ("tuple", [normalize_type(a) for a in t[1]])
+    if k == "map":
+        return ("map", normalize_type(t[1]), normalize_type(t[2]))
+    return t
+
+
 def gen_type(rng, u, depth, hashable=False, key=False):
+    return normalize_type(_gen_type(rng, u, depth, hashable, key))
+
+
+def _gen_type(rng, u, depth, hashable=False, key=False):
     """hashable: only types whose values can be set members; key: types usable as mapping keys (string data)"""
     ncls, nen = len(u["classes"]), len(u["enums"])
     if key:
@@ -215,7 +242,7 @@ def gen_universe(rng, ncls=None, typed_defaults=False):
                                 ("coll", "list", ("int",)), ("union", [("str",), ("int",)])])
             else:
                 t = gen_type(rng, u, rng.choice([0, 1, 1, 2]))
-            t = guard_recursion(t)
+            t = normalize_type(guard_recursion(t))
             f = {"name": nm, "alias": nm, "ty": t, "required": required, "default": gen_default(rng),
                  "fallback": False, "con": None}
             if typed_defaults and not required:
